@@ -1,0 +1,9 @@
+//go:build !verif
+
+package plush
+
+// Empty stubs of the verification hooks (see verif_on.go, build tag "verif").
+
+func verifCtx(op string, c *Context, key string, value interface{}, outer *Context) {}
+
+func verifParse(ev string, input string, tmpl *Template) {}
